@@ -1006,6 +1006,7 @@ func gatherSecuritySchemes(securitySchemes map[string]spec.SecurityScheme, appNa
 				genScopes = append(genScopes, GenSecurityScope{Name: k, Description: v})
 			}
 			sort.Strings(scopes)
+			sort.Slice(genScopes, func(i, j int) bool { return genScopes[i].Name < genScopes[j].Name })
 		}
 
 		security = append(security, GenSecurityScheme{
@@ -1040,11 +1041,16 @@ func gatherSecuritySchemes(securitySchemes map[string]spec.SecurityScheme, appNa
 // or an operation, without any modification. This is used to generate documentation.
 func securityRequirements(orig []map[string][]string) (result []analysis.SecurityRequirement) {
 	for _, r := range orig {
-		for k, v := range r {
-			result = append(result, analysis.SecurityRequirement{Name: k, Scopes: v})
+		// stable generation: the schemes of one requirement are listed in name order
+		names := make([]string, 0, len(r))
+		for k := range r {
+			names = append(names, k)
+		}
+		sort.Strings(names)
+		for _, k := range names {
+			result = append(result, analysis.SecurityRequirement{Name: k, Scopes: r[k]})
 		}
 	}
-	// TODO(fred): sort this for stable generation
 	return
 }
 
